@@ -216,6 +216,18 @@ def check(ctx):
     # code never files a node under its label alone (rule of C10)
     from .C10 import check_node_identity
     check_node_identity(ctx, ('taxonomy.',), floor=3)
+    # ... and the election keeps the column of a candidate and its name
+    # together: axis typing of the vote tables (sa/rules/axes.py; the
+    # per-leaf axis L and the per-type axis T are different roles)
+    from ..rules import axes as AX
+    spec_ax = AX.load_spec()
+    n_ax = 0
+    for q_ in spec_ax['functions']:
+        if q_.startswith('type_assignment.election:'):
+            n_ax += AX.check_function(ctx, db, q_, spec_ax)
+    if n_ax < 5:
+        raise AnalysisError(f'axis typing of the election covered only '
+                            f'{n_ax} array operations')
     check_count_denominators(ctx)
     # what is summed over the leaves becomes a mean and a variance by the
     # textbook formulas (rule of C11)
